@@ -9,6 +9,7 @@ import faulthandler
 import multiprocessing
 import signal
 import os
+import time
 import traceback
 
 from .harness import EnoughViolations, Partial
@@ -34,10 +35,14 @@ def _call(shard):
         if _SHARD_LIMIT:
             signal.signal(signal.SIGALRM, _alarm)
             signal.alarm(_SHARD_LIMIT)
+        t0 = time.process_time()
         try:
             _WORKER_FN(shard, part)
         finally:
             signal.alarm(0)
+        if os.environ.get("VERIF_PROFILE"):
+            desc = getattr(_WORKER_FN, "describe", None)
+            part.profile = (time.process_time() - t0, (desc(shard) if desc else repr(shard))[:200], part.counts.get("evaluations", 0) if hasattr(part, "counts") else 0)
         return part, None
     except EnoughViolations:
         return part, None
@@ -102,15 +107,27 @@ def run_shards(run, worker_fn, shards, seed=0, jobs=None, chunksize=1, shard_lim
                 break
         return
     ctx = multiprocessing.get_context("fork")
+    prof = []
     with ctx.Pool(jobs) as pool:
         for part, err in pool.imap_unordered(_call, shards, chunksize):
             if err:
                 run.harness_error(err)
             else:
+                if getattr(part, "profile", None):
+                    prof.append(part.profile)
                 run.merge(part)
             if enough():
                 pool.terminate()
                 break
+    if prof:
+        _print_profile(prof)
+
+
+def _print_profile(prof):
+    prof.sort(reverse=True)
+    print("PROFILE total cpu %.0f s over %d shards" % (sum(p[0] for p in prof), len(prof)))
+    for t, sh, n in (prof if os.environ.get("VERIF_PROFILE") == "all" else prof[:25]):
+        print("PROFILE %7.1f s  %s" % (t, sh))
 
 
 def _tuplify(x):
